@@ -14,6 +14,7 @@ import (
 	"seehuhn.de/go/pdf"
 	"verif/sim/core"
 	"verif/sim/gen"
+	"verif/sim/props/c04"
 	"verif/sim/props/c11"
 	"verif/sim/simdisk"
 	"verif/sim/tape"
@@ -46,7 +47,29 @@ var restrict = wprog.Restrict{MaxOps: 7, MaxBody: 2500, SmallValues: true}
 var restrictWrite = wprog.Restrict{MaxOps: 7, MaxBody: 2500, SmallValues: true, Bulk: true, BulkOneIn: 8}
 
 func Run(e *core.Env) {
-	side := e.T.Weighted("side", 3, 2, 1)
+	side := e.T.Weighted("side", 6, 4, 2, 1)
+	if side == 3 {
+		// read side on a revision history from the independent serialiser:
+		// hybrid sections, /Prev chains, streams with missing, wrong or
+		// unresolvable /Length (the reader's recovery paths read as well)
+		img, _, ok := c04.Image(e.T)
+		if !ok {
+			e.Skip("history not renderable")
+			return
+		}
+		t := e.T
+		var refs []pdf.Reference
+		for n := uint32(1); n <= 8; n++ {
+			refs = append(refs, pdf.NewReference(n, 0))
+		}
+		opt := &pdf.ReaderOptions{ErrorHandling: pdf.ReaderErrorHandling(t.Draw("read.mode", 3))}
+		eofAtEnd := t.Bool("read.eofAtEnd", 1, 2)
+		e.Probe("read side on a hand-serialised revision history")
+		e.Sig("history", len(img), int(opt.ErrorHandling), eofAtEnd)
+		e.Nontrivial()
+		readEnum(e, img, opt, eofAtEnd, refs)
+		return
+	}
 	if side == 2 {
 		// read side on a document from the independent serialiser: indirect
 		// /Filter, /DecodeParms and /Length, reference chains, free objects
